@@ -85,6 +85,17 @@ impl Ctx {
     }
     /// unwraps a guarded result; on panic records it and returns None
     fn ok(&mut self, func: &str, input: impl Fn() -> String, r: Result<usize, String>) -> Option<usize> {
+        {
+            let inp = input();
+            let f = Fnv::new().s(func).s(&inp).u(match &r {
+                Ok(v) => *v as u64,
+                Err(_) => u64::MAX,
+            });
+            describe(|| format!("{}({}) -> {:?}", func, inp, r));
+            // the fast and the scalar UTF-8 path get separate shards so that C17 can compare them
+            let shard = if func == "utf8_valid_up_to" { format!("val/{}/{}", func, self.path) } else { format!("val/{}", func) };
+            self.stats.dig(&shard, f);
+        }
         match r {
             Ok(v) => Some(v),
             Err(m) => {
